@@ -284,6 +284,12 @@ func c08ConnGen() func(yield func(c08.Case) bool) {
 					return
 				}
 			}
+			// constructed header blocks (validator and parser walk the same bytes) through Dispatch
+			if pr.name == "bolt" || pr.name == "boltv2" {
+				if !c08.BoltHeaderGrid("streamconn/"+pr.name, pr.name == "boltv2", vreport.Pick(3, 4), vreport.Thorough(), yield) {
+					return
+				}
+			}
 		}
 	}
 }
@@ -300,11 +306,26 @@ func TestVerifC08StreamConn(t *testing.T) {
 				return fmt.Sprintf("%s class=%s garbage on connection A changes how connection B's valid request is served", c.Target, c.Class),
 					fmt.Sprintf("frame %q, %s; %s", c.Frame, c.Desc, out)
 			}
+			if c.Class == "hdrgrid" {
+				// a request handed up to the receiver must carry exactly the pairs of the reference parse
+				if i := strings.Index(out, "up=[recv["); i >= 0 {
+					if j := strings.Index(out[i:], "] data="); j >= 0 {
+						got := out[i+len("up=[recv[") : i+j]
+						if ref, accept, ok := c08.BoltHeaderRef(c.Input()); ok {
+							sort.Strings(ref)
+							if want := strings.Join(ref, ","); !accept || got != want {
+								return fmt.Sprintf("%s class=%s request handed up with other key/value pairs than an independent reference parse of its header block", c.Target, c.Class),
+									fmt.Sprintf("receiver got headers [%s]; reference parse: accept=%v [%s]; %s; input=%s", got, accept, want, c.Desc, c.Hex)
+							}
+						}
+					}
+				}
+			}
 			if ref := c08BRef[strings.TrimPrefix(c.Target, "streamconn/")]; !strings.Contains(ref, "recv[") {
 				return "harness: connection B's reference request is not served", ref
 			}
 			return "", ""
 		},
-		Bound: "protocols bolt, boltv2, dubbo, dubbo-thrift, tars; connection A (fresh per input) receives every corruption of every frame of the codec alphabet (every truncation, length-field value, byte set {0x00,0xFF,^b} (thorough: all 256 values), dangling/trailing bytes - the xcodecs alphabet without the short strings); connection B (one per protocol per process, so state accumulates over all inputs) receives the valid 'request with headers/body' before the first and after every input",
-		Rule:  "real server streamConn.Dispatch on fake connections; scripted receiver answering like the proxy (hijack reply 200 on receive, unknown-code reply on decode error); oracle: B's observation (frame handed up: headers + body; bytes written; close events; unconsumed bytes) after A's garbage equals B's observation before any garbage; outcome = what happened on A (waits|served|error-reply|closed|closed-by-recover|livelock); one Dispatch call handing up more than len(input)+8 frames, or polling the buffer length more than 32*(len(input)+8) times, is cut off by the harness and reported as never returning; a panic on A is counted as recovered by the read loop (assumed mechanism), not reported here; allocation and poison oracles as in xcodecs; thread CPU time of one Dispatch round on an input <= 1 KiB <= 100 ms as in xcodecs; tars inputs announcing a map size > 2^24 in a 4-byte INT are not executed (kind not-run; findings/C08.md F5)"})
+		Bound: "protocols bolt, boltv2, dubbo, dubbo-thrift, tars; connection A (fresh per input) receives every corruption of every frame of the codec alphabet (every truncation, length-field value, byte set {0x00,0xFF,^b} (thorough: all 256 values), dangling/trailing bytes - the xcodecs alphabet without the short strings); connection B (one per protocol per process, so state accumulates over all inputs) receives the valid 'request with headers/body' before the first and after every input; bolt/boltv2 additionally the constructed header-block grid of xcodecs (sequences of <= 3 strings, right header length; thorough: <= 4 strings, header length right/-1/+1)",
+		Rule:  "real server streamConn.Dispatch on fake connections; scripted receiver answering like the proxy (hijack reply 200 on receive, unknown-code reply on decode error); oracle: B's observation (frame handed up: headers + body; bytes written; close events; unconsumed bytes) after A's garbage equals B's observation before any garbage; outcome = what happened on A (waits|served|error-reply|closed|closed-by-recover|livelock); one Dispatch call handing up more than len(input)+8 frames, or polling the buffer length more than 32*(len(input)+8) times, is cut off by the harness and reported as never returning; a panic on A is counted as recovered by the read loop (assumed mechanism), not reported here; allocation and poison oracles as in xcodecs; header-block grid: a request handed up must carry exactly the key/value pairs of an independent reference parse of its header block; thread CPU time of one Dispatch round on an input <= 1 KiB <= 100 ms as in xcodecs; tars inputs announcing a map size > 2^24 in a 4-byte INT are not executed (kind not-run; findings/C08.md F5)"})
 }
